@@ -151,3 +151,44 @@ func c13SecondSchemaDefinition(c *run.Ctx) int {
 	}
 	return done
 }
+
+// c13AfterRefusedExtensions: "accepts well-formed schemas" also holds for the document that comes AFTER a refused one. A
+// document with several extend blocks, of which a later one names a type that does not exist (or is of another kind), is
+// refused as a whole; the document that then brings the earlier blocks alone is well-formed and is accepted, and what it
+// adds is there once.
+func c13AfterRefusedExtensions(c *run.Ctx) int {
+	const base = "type Query { a: Int item: Item kind: Kind box(in: Box): Int }\ntype Item implements Node { id: ID }\ninterface Node { id: ID }\nenum Kind { A B }\ninput Box { x: Int }\nunion U = Item\n"
+	good := []string{"extend type Item { b: Int }\n", "extend enum Kind { C }\n", "extend input Box { y: Int }\n", "extend interface Node { n: Int }\nextend type Item { n: Int }\n", "type Other { o: Int }\nextend union U = Other\n"}
+	bad := []string{"extend type NopeZz { x: Int }\n", "extend enum Item { Z }\n", "extend input Kind { z: Int }\n", "extend union Box = Item\n", "extend interface Item { q: Int }\n"}
+	done := 0
+	for gi, g := range good {
+		for bi, b := range bad {
+			root, err := loadSDL(base)
+			if err != nil {
+				c.Violation("c13-wellformed-rejected", map[string]interface{}{"sdl": base, "error": err.Error()})
+				return done
+			}
+			var e1, e2 error
+			pv, _ := run.Protect(func() {
+				e1 = root.ParseString(g + b)
+				e2 = root.ParseString(g)
+			})
+			done++
+			c.Eval(fmt.Sprintf("after-refused|%d|%d", gi, bi), true)
+			c.Bucket("rule", "well-formed-document-after-a-refused-one")
+			diag := ""
+			switch {
+			case pv != nil:
+				diag = fmt.Sprintf("panic: %v", pv)
+			case e1 == nil:
+				diag = "the document with an extension of a missing / wrong-kind type was accepted"
+			case e2 != nil:
+				diag = "the well-formed document after the refused one is refused: " + clip(e2.Error(), 300)
+			}
+			if diag != "" {
+				c.Violation("c13-after-refused-extension", map[string]interface{}{"sdl": base, "refused_document": g + b, "refused_with": fmt.Sprint(e1), "then": g, "diag": diag})
+			}
+		}
+	}
+	return done
+}
